@@ -7,7 +7,8 @@ import TracklibVerif.Gen.SpatialIndex
 
 Also tied: `SpatialIndex.__getCell` and `SpatialIndex.groundDistanceToUnits` of the CURRENT
 `tracklib/core/spatial_index.py`. `tie_getCellR` / `tie_groundDistanceToUnits` are about the model's executed forms (`ZeroDivisionError` on a zero
-cell side included); `tie_getCell` / `tie_getCell_ok` about the value function `getCell` the theorems use.
+cell side and the caps `min(index, size)` included); that the executed form returns the value function `getCell` the
+theorems use is the proved `TV.C08.getCell_min_is_identity`.
 `groundDistanceToUnits` adds the Python literal `1` (`(1 : α)`), the model the converted integer
 `((1 : Int) : α)`: `h1` says they are the same number. -/
 namespace TV.Tie.C08
@@ -47,20 +48,6 @@ section
 variable {α : Type} [Add α] [Sub α] [Mul α] [Div α] [Neg α] [LT α] [LE α]
   [DecidableLT α] [DecidableLE α] [IntCast α] [OfNat α 0] [OfNat α 1]
 
-/-- `__getCell(coord)`: `None` outside the closed extent, else the fractional cell indices -/
-theorem tie_getCell (ix : Grid.Index α) (p : α × α) (hx : ¬ Py.feq ix.dX 0 = true) (hy : ¬ Py.feq ix.dY 0 = true) :
-    Gen.SpatialIndex.SpatialIndex_getCell ix.xmin ix.xmax ix.ymin ix.ymax ix.dX ix.dY p.1 p.2 = .ok (Grid.getCell ix p) := by
-  simp only [Gen.SpatialIndex.SpatialIndex_getCell, Grid.getCell, Py.fdiv, ite_neg' hx, ite_neg' hy, bind_ok]
-  by_cases h1 : p.1 < ix.xmin
-  · simp [h1]
-  · by_cases h2 : ix.xmax < p.1
-    · simp [h2]
-    · by_cases h3 : p.2 < ix.ymin
-      · simp [h1, h2, h3]
-      · by_cases h4 : ix.ymax < p.2
-        · simp [h1, h2, h4]
-        · simp [h1, h2, h3, h4]
-
 /-- the model's exceptions as Python exceptions -/
 def liftErr : Grid.Err → Py.Err
   | .zerodiv => .zerodiv
@@ -73,12 +60,15 @@ def lift {β : Type} : Grid.Res β → Py.M β
   | .ok v => .ok v
   | .error e => .error (liftErr e)
 
-/-- `__getCell(coord)` as executed, `ZeroDivisionError` included, is the model's `getCellR`. `hz`: the model's
-`x == 0` (`¬ x < 0 ∧ ¬ 0 < x`) is Python's (`x ≤ 0 ∧ 0 ≤ x`) — true in every linear order and of every double
-that is not NaN. -/
+/-- `__getCell(coord)` as executed — the two range tests, the two divisions (`ZeroDivisionError` included) and the
+caps `min(index, csize)`, `min(index, lsize)` — is the model's `getCellR`. `hz`: the model's `x == 0`
+(`¬ x < 0 ∧ ¬ 0 < x`) is Python's (`x ≤ 0 ∧ 0 ≤ x`) — true in every linear order and of every double that is not NaN.
+(That `getCellR` returns the affine value function `getCell` the theorems use is `TV.C08.getCell_min_is_identity`.) -/
 theorem tie_getCellR (hz : ∀ x : α, Grid.isZero x = Py.feq x 0) (ix : Grid.Index α) (p : α × α) :
-    Gen.SpatialIndex.SpatialIndex_getCell ix.xmin ix.xmax ix.ymin ix.ymax ix.dX ix.dY p.1 p.2 = lift (Grid.getCellR ix p) := by
-  simp only [Gen.SpatialIndex.SpatialIndex_getCell, Grid.getCellR, Py.fdiv, hz]
+    Gen.SpatialIndex.SpatialIndex_getCell ix.xmin ix.xmax ix.ymin ix.ymax ix.dX ix.dY ix.csize ix.lsize p.1 p.2
+      = lift (Grid.getCellR ix p) := by
+  have hm : ∀ a b : α, Py.fmin a b = Grid.pyMin a b := fun _ _ => rfl
+  simp only [Gen.SpatialIndex.SpatialIndex_getCell, Grid.getCellR, Py.fdiv, hz, hm]
   by_cases h1 : p.1 < ix.xmin
   · simp [h1, lift]
   · by_cases h2 : ix.xmax < p.1
@@ -103,40 +93,6 @@ theorem tie_groundDistanceToUnits (fl : α → Int) (ix : Grid.Index α) (distan
   by_cases h : Py.feq (Grid.pyMin ix.dX ix.dY) 0 = true
   · simp [h, lift, liftErr]
   · simp [h, lift]
-end
-section
-variable {α : Type} [Add α] [Sub α] [Mul α] [Div α] [Neg α] [LT α] [LE α]
-  [DecidableLT α] [DecidableLE α] [IntCast α] [OfNat α 0] [OfNat α 1]
-/-- whenever `__getCell` returns (no `ZeroDivisionError`), it returns the model's value -/
-theorem tie_getCell_ok (ix : Grid.Index α) (p : α × α) (v : Option (α × α))
-    (h : Gen.SpatialIndex.SpatialIndex_getCell ix.xmin ix.xmax ix.ymin ix.ymax ix.dX ix.dY p.1 p.2 = .ok v) :
-    v = Grid.getCell ix p := by
-  by_cases hx : Py.feq ix.dX 0 = true
-  · simp only [Gen.SpatialIndex.SpatialIndex_getCell, Py.fdiv, ite_pos' hx, bind_error] at h
-    simp only [Grid.getCell]
-    by_cases h1 : p.1 < ix.xmin
-    · simp [h1] at h ⊢; exact h.symm
-    · by_cases h2 : ix.xmax < p.1
-      · simp [h2] at h ⊢; exact h.symm
-      · by_cases h3 : p.2 < ix.ymin
-        · simp [h1, h2, h3] at h ⊢; exact h.symm
-        · by_cases h4 : ix.ymax < p.2
-          · simp [h1, h2, h4] at h ⊢; exact h.symm
-          · simp [h1, h2, h3, h4] at h
-  · by_cases hy : Py.feq ix.dY 0 = true
-    · simp only [Gen.SpatialIndex.SpatialIndex_getCell, Py.fdiv, ite_neg' hx, ite_pos' hy, bind_ok, bind_error] at h
-      simp only [Grid.getCell]
-      by_cases h1 : p.1 < ix.xmin
-      · simp [h1] at h ⊢; exact h.symm
-      · by_cases h2 : ix.xmax < p.1
-        · simp [h2] at h ⊢; exact h.symm
-        · by_cases h3 : p.2 < ix.ymin
-          · simp [h1, h2, h3] at h ⊢; exact h.symm
-          · by_cases h4 : ix.ymax < p.2
-            · simp [h1, h2, h4] at h ⊢; exact h.symm
-            · simp [h1, h2, h3, h4] at h
-    · rw [tie_getCell ix p hx hy] at h
-      exact (Except.ok.inj h).symm
 end
 
 end TV.Tie.C08
